@@ -34,6 +34,18 @@ func runC03(r *Run) {
 			r.Discharge()
 		}
 	}
+	// the four public values carry sixteen limbs and no more: for an inner circuit with another number of
+	// public inputs the wrapper must not build (the further inputs would belong to the attested inner
+	// statement without being bound to the public values)
+	{
+		name := "random/CGZPhFRkL3NvmGaXWBc6N7qJD519EUe6vyNpaEyDe2Ev"
+		cr := &circuitReplay{Kind: "circuit", Wrapper: "fixed", Instance: name, K: 1, Expect: "accepted"}
+		acc, msg := runCircuitReplay(cr, r.Repo)
+		r.Extra["fixed_wrapper_on_97_input_circuit"] = map[bool]string{true: "accepted", false: "refused: " + short(msg, 80)}[acc]
+		if acc {
+			r.addViolationWithReplay("CircuitFixed for an inner circuit with more than sixteen public inputs", "CircuitFixed builds and accepts for an inner circuit with 97 public inputs: inputs 16..96 are part of the inner statement but are neither width-checked nor packed into the four public values, so these do not determine the inner statement", toMap(cr), "real CircuitFixed (test.IsSolved) accepts the valid 97-input proof with the first sixteen inputs packed")
+		}
+	}
 	r.Bounds["values"] = "all limb values and public values in [0, r) (symbolic), all 16 limbs simultaneously"
 	r.Bounds["instances"] = "CircuitFixed built from the 16-public-input circuit (test_circuit; thorough also /repo/test.json), k in {1} quick / {1,2,28} thorough query rounds (the packing does not depend on k)"
 	r.Assumptions = append(r.Assumptions,
